@@ -47,24 +47,35 @@ fn operand_toks(o: &Operand, lang: &str) -> Vec<Tok> {
     }
 }
 
+/// `a <operator word> b` as a token line in `lang` (None when the language has no word for the operator)
+pub fn opword_line(a: &Operand, op: char, pick: u32, b: &Operand, lang: &str) -> Option<Line> {
+    let words = op_words(lang, op);
+    if words.is_empty() {
+        return None;
+    }
+    let mut l = Line::default();
+    for t in operand_toks(a, lang) {
+        l.push(t);
+    }
+    l.push(Tok::word(&words[monotone_index(pick, words.len())], Class::Keyword));
+    for t in operand_toks(b, lang) {
+        l.push(t);
+    }
+    Some(l)
+}
+
+/// operator-word sentences for the mixed line generator: (line, language)
+pub fn opword_strategy() -> impl Strategy<Value = (Line, String)> {
+    (operand_strategy(), prop::sample::select(vec!['*', '+', '-']), any::<u32>(), operand_strategy(), any::<bool>()).prop_filter_map("the language has a word for the operator", |(a, op, p, b, tr)| {
+        let lang = if tr { "tr" } else { "en" };
+        opword_line(&a, op, p, &b, lang).map(|l| (l, lang.to_string()))
+    })
+}
+
 /// the text of the case in `lang` (None when the language has no word for a slot)
 pub fn render(c: &Case, lang: &str) -> Option<String> {
     match &c.shape {
-        Shape::OpWord(a, op, pick, b) => {
-            let words = op_words(lang, *op);
-            if words.is_empty() {
-                return None;
-            }
-            let mut l = Line::default();
-            for t in operand_toks(a, lang) {
-                l.push(t);
-            }
-            l.push(Tok::word(&words[monotone_index(*pick, words.len())], Class::Keyword));
-            for t in operand_toks(b, lang) {
-                l.push(t);
-            }
-            Some(l.render(",", "."))
-        }
+        Shape::OpWord(a, op, pick, b) => opword_line(a, *op, *pick, b, lang).map(|l| l.render(",", ".")),
         Shape::Durations(d) => {
             let mut d2 = d.clone();
             d2.lang = lang.to_string();
